@@ -406,6 +406,13 @@ impl Stream for StreamBuilder {
                                         .split_at(end - start + closing.len());
                                     let mut buf = String::new();
                                     buf.push_str(before);
+                                    if !replace {
+                                        // no view to show (`None`): the fallback stays,
+                                        // only its markers go, as in the inline script
+                                        buf.push_str(
+                                            &replaced[opening.len()..end - start],
+                                        );
+                                    }
 
                                     let mut held_chunks = VecDeque::new();
                                     for chunk in chunks_iter {
